@@ -1,11 +1,11 @@
 from pyvc import runner
-from contracts import subpackets, hashdata, codecs
+from contracts import subpackets, hashdata, codecs, subpacket_values
 
 PID = 'C05'
 
 
 def items():
-    return subpackets.scenarios() + [s for s in hashdata.scenarios() if PID in s.props] + [c for c in codecs.CONTRACTS if PID in c.props]
+    return subpackets.scenarios() + [s for s in hashdata.scenarios() + subpacket_values.scenarios() if PID in s.props] + [c for c in codecs.CONTRACTS if PID in c.props]
 
 
 def run(tier='quick', seed=0, only=None):
